@@ -332,7 +332,7 @@ def default_scale_stream(ctx):
     from skchange.anomaly_detectors import CAPA, MVCAPA, CircularBinarySegmentation, StatThresholdAnomaliser
     from skchange.change_detectors import PELT, MovingWindow, SeededBinarySegmentation
     rng = ctx.rng
-    for it in range(ctx.n(2, 8)):
+    for it in range(ctx.n(3, 8)):
         n = rng.choice([400, 900, 1600]) if it % 2 == 0 else rng.randint(300, 1200)
         p = rng.choice([1, 3, 10])
         X = np.asarray([[rng.gauss(0, 1) for _ in range(p)] for _ in range(n)])
@@ -340,13 +340,37 @@ def default_scale_stream(ctx):
             X[c:, : rng.randint(1, p)] += rng.choice([3.0, -4.0, 2.0])
         for _ in range(n // 100):
             X[rng.randrange(n), rng.randrange(p)] += rng.choice([12.0, -14.0])
+        if it >= 1:
+            # strong changes 2-4 samples from the first and the last row, and isolated bumps of 2-4 samples: nothing admissible fits them
+            X[: rng.choice([2, 3, 4])] += 9.0
+            X[n - rng.choice([2, 3, 4]):] -= 9.0
+            for _ in range(3):
+                t_ = rng.randint(40, n - 40)
+                X[t_:t_ + rng.choice([2, 3, 4])] += 11.0
+        if it == 0:
+            # short enough for circular binary segmentation with its default (cubic) candidate enumeration: noise with isolated bumps of 2-4 samples only
+            n, p = rng.randint(260, 320), 1
+            X = np.asarray([[rng.gauss(0, 1) for _ in range(p)] for _ in range(n)])
+            for j_, t_ in enumerate(range(35, n - 30, 52)):          # four or five well separated bumps of 3 and 4 samples, at positions of both parities
+                t_ += rng.randint(0, 7)
+                X[t_:t_ + (3, 4)[j_ % 2]] += 11.0
         Xd = pd.DataFrame(X)
 
         def bad(det, msg, extra=None):
             ctx.violation(f"{det} with default hyper-parameters on a {n} x {p} series: {msg}", dict({"detector": det, "n": n, "p": p, "defaults": True}, **(extra or {})),
                           {"what": "default-scale-wellformed", "detector": det})
-        for det, mk, kind in [("PELT", PELT, "cpt"), ("SeededBinarySegmentation", SeededBinarySegmentation, "cpt"), ("MovingWindow", MovingWindow, "mw"),
-                              ("CAPA", CAPA, "capa"), ("MVCAPA", MVCAPA, "capa"), ("CircularBinarySegmentation", CircularBinarySegmentation, "cbs")]:
+        runs = [(det_, mk_, kind_, Xd, n) for det_, mk_, kind_ in [("PELT", PELT, "cpt"), ("SeededBinarySegmentation", SeededBinarySegmentation, "cpt"), ("MovingWindow", MovingWindow, "mw"),
+                                                                   ("CAPA", CAPA, "capa"), ("MVCAPA", MVCAPA, "capa"), ("CircularBinarySegmentation", CircularBinarySegmentation, "cbs")]]
+        if it == 0:
+            for _ in range(3):          # further bump series for circular binary segmentation alone (whether a bump exposes a too-short anomaly depends on its alignment)
+                n2 = rng.randint(262, 300)
+                X2 = np.asarray([[rng.gauss(0, 1)] for _ in range(n2)])
+                for j_, t_ in enumerate(range(35, n2 - 30, 52)):
+                    t_ += rng.randint(0, 7)
+                    X2[t_:t_ + (3, 4)[(j_ + _) % 2]] += 11.0
+                runs.append(("CircularBinarySegmentation", CircularBinarySegmentation, "cbs", pd.DataFrame(X2), n2))
+        n_main = n
+        for det, mk, kind, Xd, n in runs:
             if det == "CircularBinarySegmentation" and n > 500:
                 continue          # its candidate enumeration is cubic in max_interval_length: long series are covered by C09's own stream
             try:
